@@ -1,7 +1,7 @@
 import os
 import vlib
 
-THEOREMS = []
+THEOREMS = ["Dispenso.Graph." + t for t in ['C31_propagate', 'C31_propagate_biprop', 'C31_reexecute', 'C31_reexecute_biprop', 'C31_setAll_full', 'C31_sets_ok', 'C31_sets_ok_built', 'C31_sets_merge', 'C31_invariants_sameShape']]
 PROP = "C31"
 MODULE = "DispensoVerif.Props.C31"
 
